@@ -83,7 +83,28 @@ def gen_refs():
     write("RefsC", body)
 
 
-SECTIONS = {"ladder": gen_ladder, "refs": gen_refs}
+STAT = {"PENDING": "SPending", "CANCELLING": "SCancelling", "UPDATING": "SUpdating", "REPLACING": "SReplacing",
+        "EXECUTABLE": "SExecutable", "EXECUTION_COMPLETE": "SExecComplete", "EXPIRED": "SExpired", "VIOLATION": "SViolation"}
+
+
+def sl(xs):
+    return "[" + "; ".join(STAT[x.name] for x in xs) + "]"
+
+
+def gen_status():
+    from flumine.order import order as o
+    from flumine.markets import blotter as b, middleware as mw
+    body = "From V Require Import Model.Status.\n"
+    body += "Definition LIVE_STATUS : list status := %s.\n" % sl(o.LIVE_STATUS)
+    body += "Definition COMPLETE_STATUS : list status := %s.\n" % sl(o.COMPLETE_STATUS)
+    body += "Definition PENDING_STATUS : list status := %s.\n" % sl(b.PENDING_STATUS)
+    body += "Definition MW_LIVE_STATUS : list status := %s.\n" % sl(mw.LIVE_STATUS)
+    body += "Definition WIN_MIN_ADJ_FACTOR_X100 := %s.\n" % z(to_int(mw.WIN_MINIMUM_ADJUSTMENT_FACTOR, 100))
+    body += "Definition IMPLIED_COMMISSION_RATE_X100 := %s.\n" % z(to_int(b.IMPLIED_COMMISSION_RATE, 100))
+    write("StatusC", body)
+
+
+SECTIONS = {"ladder": gen_ladder, "refs": gen_refs, "status": gen_status}
 
 if __name__ == "__main__":
     which = sys.argv[1:] or sorted(SECTIONS)
